@@ -1,5 +1,5 @@
 """Per-property configuration of bin/check: streams, oracles, signatures, evidence texts."""
-import hashlib, json
+import hashlib, json, os
 
 TRUSTED_BASE = [
     "Coq 8.16.1 kernel (coqc; coqchk in the thorough tier); vm_compute used for finite facts; no native_compute",
@@ -558,18 +558,43 @@ def run_c05(ctx, ck):
     import re
     IGNORED_KEYS.update({"bashsyntax", "batchsyntax"})
     s = ck.run_stream(ctx, "sem-batch", 250 if ctx.tier == "quick" else 6000)
-    stats = {"decided": 0, "spec_undefined": 0, "cmd_unsupported": 0, "cmd_fuel": 0, "beyond_32_bit": 0}
+    stats = {"decided": 0, "spec_undefined": 0, "cmd_unsupported": 0, "cmd_fuel": 0, "beyond_32_bit": 0, "scripts_differing_from_model": 0}
+    # second pass: the IMPLEMENTATION's Batch script under the cmd.exe model (the first pass ran the model's script)
+    import subprocess
+    d2 = s["dir"] + "-cmdrun"
+    os.makedirs(d2, exist_ok=True)
+    with open(d2 + "/cases.txt", "w") as f:
+        for k in s["cases"]:
+            if k[0] == "batrun":
+                bat = toks(s["impl"].get(k)).get("bat", "-")
+                if bat != "-":
+                    f.write("cmdrun %s %s\n" % (k[1], bat))
+    with open(d2 + "/cases.txt") as fi, open(d2 + "/model.txt", "w") as fo:
+        subprocess.run(["/verif/.build/driver"], stdin=fi, stdout=fo, stderr=subprocess.PIPE, timeout=3600)
+    implrun = {}
+    for l in open(d2 + "/model.txt"):
+        p = l.rstrip("\n").split(" ", 2)
+        if len(p) == 3 and p[0] == "cmdrun":
+            implrun[p[1]] = toks(p[2])
 
     def oracle(k, s_):
         if k[0] != "batrun":
             return False
         mo = toks(s_["model"].get(k))
         io = toks(s_["impl"].get(k))
+        ir = implrun.get(k[1])
+        if ir is not None:
+            if (ir.get("cmd"), ir.get("out"), ir.get("status")) != (mo.get("cmd"), mo.get("out"), mo.get("status")):
+                stats["scripts_differing_from_model"] += 1
+            mo = dict(mo, cmd=ir.get("cmd"), out=ir.get("out"), status=ir.get("status"))   # decide on the implementation's script
         if mo.get("spec") != "ran":
             stats["spec_undefined"] += 1
             return False
+        if mo.get("cmd") == "fuel":
+            stats["cmd_fuel"] += 1
+            return "the Batch script does not end within 200000 commands under the cmd.exe model, the reference semantics ends and prints %r" % hexs(mo.get("specout", ""))[:300]
         if mo.get("cmd") != "ran":
-            stats["cmd_unsupported" if mo.get("cmd") == "unsupported" else "cmd_fuel"] += 1
+            stats["cmd_unsupported"] += 1
             return False
         spec_out = hexs(mo.get("specout", ""))
         if re.search(r"[0-9]{10,}", spec_out) or re.search(r"[0-9]{10,}", hexs(mo.get("out", ""))):
@@ -586,6 +611,9 @@ def run_c05(ctx, ck):
 
     def sig(k, s_):
         mo = toks(s_["model"].get(k))
+        ir = implrun.get(k[1])
+        if ir is not None and ir.get("out") is not None:
+            mo = dict(mo, out=ir.get("out"))
         out, spec = hexs(mo.get("out", "")), hexs(mo.get("specout", ""))
         src = prog_source(s_["cases"][k])
         if "func " in src and "panic(" in src and out.startswith(spec) and len(out) > len(spec) and spec.rstrip("\n").split("\n")[-1].startswith("panic: "):
